@@ -29,6 +29,11 @@ CLAIMED = {
    text="Unbounded Coq theorems, for both build profiles, every client state and session parameters and EVERY byte string: one read of one frame (deframing, X.224, MCS, share control/data dispatch, demand-active with capability sets, finalization PDUs, batched data PDUs, fast-path updates with bitmap rectangles) returns a value or an error, never Panic (= any unwrap/index/slice/map lookup/overflow trap/capacity overflow, each an explicit branch of the model) and never Spin; the same along every history of hostile frames interleaved with input attempts; every buffer any of the 28 session-path templates sizes from the wire is at most 65535 bytes. The per-layout obligations are discharged by computation of the checker, so a changed layout re-decides them. Tied to /repo by ~87000 fault-injected frames per profile in the quick tier (every state x every PDU kind x byte/u16 field faults, truncations, extensions, header faults, short strings, random corruption, long runs of ignored frames), each followed by a valid frame and an input attempt, outcome and largest single allocation compared with the extracted model.",
    design_ref="DESIGN.md section 6, C05-C07",
    note="Trusted: Coq kernel (+vm_compute for per-layout checker obligations and two symbolic write evaluations), extraction, OCaml driver, Rust harness + cfg hooks + counting allocator; layouts hand-written and validated by correspondence; whole frames are delivered (fragmentation is C13); 'out of proportion' = no single allocation above the 16-bit frame bound (model) / 2*65536+4096 (measured, Vec growth doubling)."),
+ "C16": dict(
+   technique="Coq proof (induction over message lists / interleaved schedules; hash functions universally quantified, RC4 keystream lemmas proved of the concrete cipher model) of model = MS-NLMP SEAL/MAC spec, round trip with a conforming peer, and the exact acceptance condition of unwrap; model tied to /repo by differential correspondence and an independent python MS-NLMP oracle",
+   text="Unbounded Coq theorems, for every hash pair with 16-byte digests (instantiated with an executable Gallina MD5/HMAC-MD5 validated on RFC vectors): for every exported session key and every list of messages the tokens of successive gss_wrapex calls are byte-identical to MS-NLMP SEAL/MAC with the derived client keys, cipher state and sequence number threaded; for every interleaved schedule of messages in both directions a conforming peer (own counter, 16-byte signature compare) recovers what the client wraps and gss_unwrapex recovers what the peer seals; the exact acceptance condition of gss_unwrapex; unconditional rejection (error, no panic, no payload) of any change of the Version or Checksum bytes and of inputs shorter than 16 bytes; an altered SeqNum/ciphertext is accepted iff the 8-byte HMAC prefixes of two provably different signed strings collide (rejection under that explicit no-collision premise); the client keeps no receive counter (stated as a theorem). Tied to /repo on every run: sessions of 0..8 messages of lengths {0,1,15,16,17,255,4096,4097} in both directions under random keys, compared byte for byte with the extracted model (debug and release) and with an independent python MS-NLMP implementation; every single-bit flip of sealed tokens (exhaustive up to 271-byte tokens; all 32896 bits of 4112-byte tokens in the thorough tier), every truncation, extensions, replay, reordering, reflection and wrong-key tokens must be rejected with an error.",
+   design_ref="DESIGN.md section 6, C16",
+   note="Trusted: Coq kernel (+vm_compute for test vectors and concrete examples), extraction (ExtrOcamlBasic), OCaml driver, Rust harness + cfg(rdp_rs_verif) hooks in ntlm.rs, python oracle gen/nlmp.py; crates md-5/md4/hmac modelled by Md5.v/Md4.v/Hmac.v (validated on RFC 1320/1321/2202 vectors and sampled), not verified; rejection of SeqNum/ciphertext alterations is conditional on HMAC-MD5 64-bit prefix collision freedom (a premise of the theorem). One defect fixed: seq_num+1 overflow at message 2^32."),
 }
 
 NOT_YET = {}
